@@ -156,6 +156,7 @@ deriving DecidableEq, Repr, Inhabited
 structure PImg where
   len : Nat := 0                    -- file length in pages
   hdr : Meta := {}
+  bm : Nat := 2                     -- allocation bitmap page: data pages 2 … bm-1 are marked allocated
   i2e : List Nat := []              -- slots of the node table page (external ids, 0 = empty)
   cat : Option (List Nat) := none   -- catalog page: `none` = never written (zero page)
   idx : List Nat := []              -- index root pages that were initialised
@@ -167,7 +168,7 @@ deriving DecidableEq, Repr, Inhabited
 inductive PEff where
   | setLen (n : Nat)
   | hdr (m : Meta)
-  | bitmap
+  | bitmap (top : Nat)
   | slot (idx ext : Nat)
   | cat (entries : List Nat)
   | idxRoot (p : Nat)
@@ -208,7 +209,7 @@ def applyEff (e : PEff) (p : PImg) : PImg :=
   match e with
   | .setLen n => { p with len := max p.len n }
   | .hdr m => { p with hdr := m }
-  | .bitmap => p
+  | .bitmap top => { p with bm := top }
   | .slot i x => { p with i2e := setSlot p.i2e i x }
   | .cat es => { p with cat := some es }
   | .idxRoot r => { p with idx := r :: p.idx }
